@@ -33,7 +33,7 @@ def _one_config(job):
         os.dup2(os.open(os.devnull, os.O_WRONLY), 2)      # tqdm bars of reap()
     except Exception:
         pass
-    setup = cropfs.Setup(n, nb)
+    setup = cropfs.Setup(n, nb, seeding=label.endswith("_pid"))     # (same process: the function seeds the global RNGs)
     try:
         writers = [(w, b, 9000 if label.endswith("_pid") else 9000 + k) for k, (w, b) in enumerate(wr)]
         progs, names = cropfs.record_programs(setup, writers)
@@ -151,7 +151,7 @@ def replay(rep, case):
         return replay_fullpoll(rep, case)
     cfg = [c for c in CONFIGS_T if c[0] == case["config"]][0]
     label, n, nb, wr, npolls = cfg
-    setup = cropfs.Setup(n, nb)
+    setup = cropfs.Setup(n, nb, seeding=label.endswith("_pid"))     # (same process: the function seeds the global RNGs)
     try:
         writers = [(w, b, 9000 if label.endswith("_pid") else 9000 + k) for k, (w, b) in enumerate(wr)]
         obs = cropfs.execute(setup, writers, [tuple(s) for s in case["steps"]], npolls)
